@@ -330,6 +330,25 @@ def fam_trap(tier, rng):
                         k = [i for i, x in enumerate(main) if x.get("k") == "label" and x.get("l") == "FIN"][0]
                         main[k:k] = [b.call("PA", [lit("I", 8), lit("I", 9)])]
                     out.append({"fam": "trap:%s/%s/%s/%s" % (kind, host, where, mode), "prog": prog(main, subs)})
+    # the failing statement is the last (or only) one of a block that stands inside a loop and fails in every round:
+    # whatever the block keeps on the machine's stacks is released in every round
+    for kind in ("div", "subscript", "argcall"):
+        for host in ("select", "selectelse", "if", "ifelse", "elseif", "while", "dobotuntil", "for+"):
+            for where in ("only", "last"):
+                for mode in ("resumenext", "onerrornext"):
+                    b = B()
+                    pre = [b.dim("AR", "I", [{"lo": lit("I", 0), "hi": lit("I", 3), "nolo": False}]), b.let(var("M", "I"), lit("I", 32767))]
+                    f, code = failing(b, kind)
+                    body = [f] if where == "only" else [tok(b, "p1"), f]
+                    r = var("RR", "I")
+                    loop = b.for_(r, lit("I", 1), lit("I", 3), None, [tok(b, "round", r)] + wrap(b, host, body, 1) + [tok(b, "tail", r)], hasstep=False)
+                    subs = call_subs(b) if kind in CALLKINDS else []
+                    tail = [tok(b, "after", r), b.end()]
+                    if mode == "onerrornext":
+                        main = pre + [b.onerror("next"), loop] + tail
+                    else:
+                        main = pre + [b.onerror("goto", "H"), loop] + tail + [b.label("H"), tok(b, "h", {"k": "err"}), b.resume("next")]
+                    out.append({"fam": "trap-loop:%s/%s/%s/%s" % (kind, host, where, mode), "prog": prog(main, subs)})
     # failing block headers with RESUME (re-execute) and RESUME label
     for hk in ("if", "while", "for", "select", "dotop"):
         for mode in ("resume", "resumelabel", "none"):
